@@ -55,10 +55,27 @@ def run(ctx):
             node = method_call(e.data[0])[0]
             x = method_call(e.data[0])[2][0]
             guards = guards_of(p, e)
-            # the replaced node is a combiner (guard)
-            is_comb = any(is_call(a, 'is_layer') and v and
-                          mentions(a, lambda y: y == ('global', comb.qualname))
+            # the replaced node is a combiner (guard): is_layer(n, ..) or isinstance(module, ..)
+            is_comb = any(is_call(a, 'is_layer', 'builtins.isinstance', 'is_inherited_layer')
+                          and v and mentions(a, lambda y: y == ('global', comb.qualname))
                           for a, v in guards)
+            # every call site is visited: the loop ranges over the graph nodes / the
+            # per-call-site leaf list, not over a list de-duplicated by module name
+            loops = [c for c in e.ctx if c[0] == 'loop' and c[2] is not None]
+            dom = loops[0][2] if loops else None
+            dedup = dom is not None and mentions(dom, lambda y: y[0] == 'call' and (
+                (callee(y) or '').endswith('uniquify_leaf_modules') or
+                is_call(y, 'builtins.set', 'builtins.dict')))
+            all_sites = dom is not None and not dedup and (
+                mentions(dom, lambda y: y[0] == 'attr' and y[2] == 'nodes') or
+                mentions(dom, lambda y: y[0] == 'call' and
+                         (callee(y) or '').endswith('named_leaf_modules')))
+            ctx.ob('R03e', 'export_graph visits every combiner call site', all_sites,
+                   'loop over all graph nodes / call sites' if all_sites else
+                   f'combiners are enumerated from {short(dom, 120) if dom else "?"}'
+                   f'{", which de-duplicates by module" if dedup else ""}: a choice block invoked '
+                   f'twice in forward keeps its combiner and all branches at the second call site',
+                   where(eg, e.node))
             ctx.ob('R03d', 'export_graph replaces combiner nodes only', is_comb,
                    'guarded by is_layer(n, mod, (SuperNetCombiner,))' if is_comb else
                    'replace_all_uses_with is not guarded by the combiner test', where(eg, e.node),
@@ -73,10 +90,13 @@ def run(ctx):
             if positional:
                 idx = strip_scalar(x[2])
                 mc = method_call(idx)
-                ok_idx = mc is not None and mc[1] == 'best_layer_index' and \
-                    method_call(mc[0]) is not None and \
-                    method_call(mc[0])[1] == 'get_submodule' and \
-                    mentions(mc[0], lambda y: y == ('attr', node, 'target'))
+                ok_idx = mc is not None and mc[1] == 'best_layer_index' and (
+                    (method_call(mc[0]) is not None and
+                     method_call(mc[0])[1] == 'get_submodule' and
+                     mentions(mc[0], lambda y: y == ('attr', node, 'target'))) or
+                    # (name, node, module) triple of named_leaf_modules: module of that node
+                    (mc[0][0] == 'sub' and mc[0][2] == ('const', 2) and node[0] == 'sub' and
+                     node[2] == ('const', 1) and node[1] == mc[0][1]))
                 ctx.ob('R03a', 'export_graph winner index', ok_idx,
                        'index = best_layer_index() of the combiner designated by the node' if ok_idx
                        else f'the kept branch is selected with {short(x[2], 120)}: expected '
@@ -141,7 +161,7 @@ def run(ctx):
                         mc2 = method_call(e2.data[0])
                         if mc2 and mc2[1] == 'erase_node' and mc2[2][0] == t:
                             ok = ok or any(_not_winner(a, v, t, winner)
-                                           for a, v in guards_of(p, e2))
+                                           for a, v in p.assumptions)
                 if t[0] == 'elem' and t[1][0] == 'list' and t[1][1]:
                     # list filled by append inside a loop over all inputs, guarded
                     items = t[1][1]
@@ -151,7 +171,7 @@ def run(ctx):
                             mc2 = method_call(e2.data[0])
                             if mc2 and mc2[1] == 'append' and mc2[2][0] in items:
                                 ok = ok or any(_not_winner(a, v, mc2[2][0], winner)
-                                               for a, v in guards_of(p, e2))
+                                               for a, v in p.assumptions)
             ctx.ob('R03d', 'export_graph erases every losing branch output', ok,
                    'all inputs of the combiner except the winner are erased' if ok else
                    f'the erased set is {[short(t, 100) for t in losers]}: expected every input '
